@@ -186,6 +186,17 @@ func c14Case(o *Out, r *Rng) {
 		fail = N("scan", I(int64(scanned)))
 		ferr = safeParseReader(root, &faultReader{data: []byte(text), at: at})
 	}
+	// two schema blocks in one document are a duplicate ("" is already in the schema): that is reported by addTypes,
+	// before any extension is applied or any rule validated
+	nSchema := 0
+	for _, a := range acts {
+		if a.Tag == "schema" {
+			nSchema++
+		}
+	}
+	if nSchema >= 2 && (class == "failed-extension" || class == "validation") {
+		fail = N("addTypes")
+	}
 	if ferr == nil {
 		o.Count("failing-document-accepted")
 		return
